@@ -24,7 +24,7 @@ func TestDecimalToDouble(t *testing.T) {
 	}{
 		{false, "0", 0, 0}, {false, "1", 0, 1}, {false, "15", -1, 1.5}, {false, "1", 21, 1e21},
 		{false, "17976931348623157", 292, math.MaxFloat64},
-		{false, "17976931348623158", 292, math.MaxFloat64},  // below the halfway point to 2^1024
+		{false, "17976931348623158", 292, math.MaxFloat64}, // below the halfway point to 2^1024
 		{false, "179769313486231580793", 288, math.MaxFloat64},
 		{false, "17976931348623159", 292, math.Inf(1)},
 		{false, "1", 400, math.Inf(1)}, {true, "1", 400, math.Inf(-1)}, {false, "1", -400, 0},
@@ -139,7 +139,7 @@ func TestParseGrammar(t *testing.T) {
 		`null`: "N", ` true `: "T", "\t\r\n false": "F", `0`: "n:0", `-0`: "n:-0", `1E+2`: "n:100", `0.1e-7`: "n:1e-08", `-1.5e0`: "n:-1.5", `1e007`: "n:1e+07",
 		`""`: `""`, `"a\/b"`: `"a/b"`, `"\"\\\b\f\n\r\t"`: `"\"\\\u0008\u000C\u000A\u000D\u0009"`, "\"\u00e9\\uD800x\U0010FFFF\"": `"\u00E9\uD800x\uDBFF\uDFFF"`,
 		"\"\u2028\u2029\u007f\"": `"\u2028\u2029\u007F"`,
-		`[]`: "[0|]", `[1,[2,[]],"x"]`: `[3|0:n:1,1:[2|0:n:2,1:[0|]],2:"x"]`, `{}`: "{}", `{"b":1,"a":{"c":[null]}}`: `{"b":n:1,"a":{"c":[1|0:N]}}`,
+		`[]`:                     "[0|]", `[1,[2,[]],"x"]`: `[3|0:n:1,1:[2|0:n:2,1:[0|]],2:"x"]`, `{}`: "{}", `{"b":1,"a":{"c":[null]}}`: `{"b":n:1,"a":{"c":[1|0:N]}}`,
 		`{"a":1,"b":2,"a":3}`: `{"a":n:3,"b":n:2}`, `{"__proto__":1,"":2}`: `{"__proto__":n:1,"":n:2}`, `1e400`: "n:+Inf", `-1e400`: "n:-Inf",
 		` [ 1 , 2 ] `: "[2|0:n:1,1:n:2]", `{ "a" : 1 }`: `{"a":n:1}`,
 	}
@@ -362,5 +362,65 @@ func TestU16JSON(t *testing.T) {
 	var back U16
 	if err := back.UnmarshalJSON(b); err != nil || !EqUnits(u, back) {
 		t.Errorf("U16 round trip: %s -> %v (%v)", b, back, err)
+	}
+}
+
+// The deviation models (used only by known-finding matchers) reproduce what
+// was observed on otto; pin them so a matcher cannot drift silently.
+func TestDeviationModels(t *testing.T) {
+	for in, want := range map[string]string{
+		`"\uD800"`:              `"\uFFFD"`,
+		"\"\U0001F600\"":        `"\uD83D\uDE00"`,
+		`"\uD83D\uDE00"`:        `"\uD83D\uDE00"`,
+		`"\uDE00\uD83D"`:        `"\uFFFD\uFFFD"`,
+		`"\uD83Dx"`:             `"\uFFFDx"`,
+		"\"\\uD83D\U0001F600\"": `"\uFFFD\uD83D\uDE00"`,
+	} {
+		v, _, err := ParseGoSurrogates(U(in))
+		if err != nil || Dump(v, dopt) != want {
+			t.Errorf("ParseGoSurrogates(%s) = %v %v want %s", in, Dump(v, dopt), err, want)
+		}
+	}
+	// escaped high surrogate followed by a RAW low surrogate: both are lost
+	mixed := append(U(`"\uD83D`), 0xDE00, '"')
+	if v, _, _ := ParseGoSurrogates(mixed); Dump(v, dopt) != `"\uFFFD\uFFFD"` {
+		t.Errorf("mixed escape/raw pair: %s", Dump(v, dopt))
+	}
+	if v, _ := Parse(mixed); Dump(v, dopt) != `"\uD83D\uDE00"` {
+		t.Errorf("oracle must keep the pair: %s", Dump(v, dopt))
+	}
+	_, overflow, _ := ParseOverflow(U(`{"k":-1e999,"k":1}`))
+	if !overflow {
+		t.Errorf("overflow of an overwritten member not reported")
+	}
+	del := func(h *Val, k []uint16, x *Val) *Val {
+		if x.Kind == Null {
+			return Undef()
+		}
+		return x
+	}
+	v, _ := parseS(`{"a":null,"b":null,"c":null}`)
+	if got := Dump(ReviveLiveEnumeration(v, del), dopt); got != `{"b":N}` {
+		t.Errorf("live enumeration: %s", got)
+	}
+	v, _ = parseS(`{"a":null,"b":null,"c":null}`)
+	if got := Dump(Revive(v, del), dopt); got != `{}` {
+		t.Errorf("snapshot enumeration: %s", got)
+	}
+	// a stale tail slot is visited a second time: [a,b,c] - delete a -> visits a, c, c
+	calls := ""
+	v, _ = parseS(`{"a":null,"b":1,"c":2}`)
+	ReviveLiveEnumeration(v, func(h *Val, k []uint16, x *Val) *Val { calls += UTF8(k) + ","; return del(h, k, x) })
+	if calls != "a,c,c,," {
+		t.Errorf("live enumeration call order: %s", calls)
+	}
+	if got := strf(Instantiate(&Node{K: "num", N: 1444328876570029824}, nil), Options{Dev: DevExactInt}); got != "1444328876570029824" {
+		t.Errorf("exact int: %s", got)
+	}
+	if got := strf(Instantiate(&Node{K: "num", N: 1444328876570029824}, nil), Options{}); got != "1444328876570029800" {
+		t.Errorf("9.8.1 int: %s", got)
+	}
+	if got := strf(Instantiate(&Node{K: "arr", E: []*Node{{K: "num", N: 1}}}, nil), Options{Space: StrS("a\u00e9\u00e9\u00e9\u00e9\u00e9\u00e9"), Dev: DevGapBytes}); got != "[\na\u00e9\u00e9\u00e9\u00e9\ufffd1\n]" {
+		t.Errorf("gap bytes: %q", got)
 	}
 }
